@@ -5,6 +5,11 @@ use std::{
 
 pub trait Task: Send + 'static {
     fn run(self);
+    /// identity of the job in the verification event log
+    #[cfg(khttp_verif)]
+    fn verif_id(&self) -> u64 {
+        0
+    }
 }
 
 pub(crate) struct ThreadPool<J: Task> {
@@ -31,18 +36,31 @@ impl<J: Task> ThreadPool<J> {
 
     #[inline]
     pub fn execute(&self, job: J) {
+        #[cfg(khttp_verif)]
+        crate::verif::emit(format!("S{}", job.verif_id()));
         self.sender.as_ref().unwrap().send(job).unwrap();
     }
 }
 
 impl<J: Task> Drop for ThreadPool<J> {
     fn drop(&mut self) {
+        #[cfg(khttp_verif)]
+        crate::verif::emit("D".to_string());
         drop(self.sender.take()); // closes channel; workers exit
+        #[cfg(khttp_verif)]
+        let mut joined = 0;
         for w in &mut self.workers {
             if let Some(t) = w.thread.take() {
                 t.join().unwrap();
+                #[cfg(khttp_verif)]
+                {
+                    crate::verif::emit(format!("J{}", joined));
+                    joined += 1;
+                }
             }
         }
+        #[cfg(khttp_verif)]
+        crate::verif::emit("T".to_string());
     }
 }
 
@@ -52,12 +70,26 @@ struct Worker {
 
 impl Worker {
     fn new<J: Task>(receiver: Arc<Mutex<mpsc::Receiver<J>>>) -> Self {
+        #[cfg(khttp_verif)]
+        let wid = crate::verif::next_worker_id();
         let thread = thread::spawn(move || {
+            #[cfg(khttp_verif)]
+            crate::verif::set_worker_id(wid);
             loop {
                 let msg = {
                     let rx = receiver.lock().unwrap();
+                    #[cfg(khttp_verif)]
+                    crate::verif::emit(format!("A{}", wid));
+                    #[cfg(khttp_verif)]
+                    let _unlocking = crate::verif::OnDrop(format!("U{}", wid)); // dropped before `rx`
                     rx.recv()
                 };
+                #[cfg(khttp_verif)]
+                if msg.is_err() {
+                    crate::verif::emit(format!("x{}", wid));
+                }
+                #[cfg(khttp_verif)]
+                let msg = msg.map(|job| crate::verif::Traced::new(job, wid));
                 match msg {
                     Ok(job) => job.run(),
                     Err(_) => break, // sender dropped
